@@ -728,6 +728,8 @@ class RecExecutor(_TPE):
             except Exception:
                 desc = None
 
+        ctl.rec('job_submit', key, parent, desc)
+
         def wrapped():
             ctl.job_begin(key, parent, desc)
             try:
